@@ -45,6 +45,19 @@ def chainVerdict (evs : List (Name × Char × Name)) (runaway : Bool) : String :
   else if evs.any (fun (src, kind, tgt) => kind = 'R' && lower src = lower tgt) then "viol:rechoose-excluded"
   else "ok"
 
+/-- verdict for the FIRST decision of a kick from the current server (player active, safe, nothing connected or
+    connected to `rs`): the redirect target must be the property's choice given the failed, current and in-flight
+    servers as they were when the kick arrived; a disconnect is right only when that choice is empty -/
+def firstKickVerdict (w : World) (s : PState) (rs : Name) (first : Option (Name × Char × Name)) : String :=
+  let excluded := [rs] ++ optList s.conn ++ optList s.infl
+  let expected := specChoice w.reg (chosenList w s) s.idx excluded
+  match first with
+  | some (_, 'R', t) =>
+    if expected = some t then "ok"
+    else if excluded.any (fun x => lower x = lower t) then "viol:rechoose-excluded" else "viol:wrong-choice"
+  | some (_, 'D', _) => if expected = none then "ok" else "viol:wrong-choice"
+  | _ => "ok"
+
 def hostCharsB (h : Bytes) : Bool := h.all fun b => b != 0 && b != 47 && b != 58 && b != 91 && b != 93
 def noEdgeDotsB (h : Bytes) : Bool := h.head? != some 46 && h.getLast? != some 46
 
